@@ -1,6 +1,7 @@
-"""C02 key / certificate fixtures, generated with `cryptography` only (never through SPSDK) and cached under
-/verif/.work/C02/keys.  The cache is an optimisation: every file is regenerated when missing; nothing in the verdict
-depends on the particular key values.
+"""C02 key / certificate fixtures.  The private / public keys are FIXED material committed in tools/props/c02.keys.json
+(generated once with `cryptography`, never through SPSDK); at run time they are written to /verif/.work/C02/keys (the
+implementation needs file paths) and the X.509 certificates are derived from them deterministically (fixed serial numbers and
+dates, RSASSA-PKCS1-v1_5).  Only a key missing from the fixture file is generated (and, for the leading-zero keys, searched).
 
 RSA (cert block v1):  for size in 2048/3072/4096: 4 root keys; per root a self-signed non-CA certificate (used as the sole
 certificate, depth 1) and a self-signed CA certificate (used with chains); per root and depth d in 2..4 the chain
@@ -43,10 +44,32 @@ def _cert(subject_cn, subject_key, issuer_cn, issuer_key, ca, serial):
     return b.sign(issuer_key, hashes.SHA256())
 
 
+FIXTURE = os.path.join(os.path.dirname(os.path.abspath(__file__)), "c02.keys.json")
+
+
 def ensure(keydir, log=lambda s: None):
-    """Create missing fixtures; return the index dict (paths)."""
+    """Materialise the committed keys, derive the certificates; return the index dict (paths)."""
     os.makedirs(keydir, exist_ok=True)
     idx = {"rsa": {}, "ecc": {}}
+    try:
+        fixed = json.load(open(FIXTURE))["files"]
+    except FileNotFoundError:
+        fixed = {}
+    for name, text in fixed.items():
+        path = os.path.join(keydir, name)
+        try:
+            same = open(path).read() == text
+        except FileNotFoundError:
+            same = False
+        if not same:
+            with open(path + ".tmp%d" % os.getpid(), "w") as f:
+                f.write(text)
+            os.replace(path + ".tmp%d" % os.getpid(), path)
+            # certificates derived from an older key are stale
+            if name.startswith("rsa"):
+                import glob
+                for old in glob.glob(os.path.join(keydir, name.split("_")[0] + "_*.der")):
+                    os.remove(old)
 
     def have(p):
         return os.path.exists(p) and os.path.getsize(p) > 0
